@@ -175,6 +175,29 @@ def run(ctx):
             if r and r[0] == "external" and r[1] in ("functools.lru_cache", "functools.cache", "functools.cached_property"):
                 ctx.violate("R3", f"memoisation decorator {r[1]}", f, dec)
     ctx.ok("R3", f"{nparams} parameter defaults are immutable; no memoisation decorators", "iodata/")
+    # class-level mutable values are shared by all instances (attrs/dataclass fields with a mutable default included)
+    MUT = (ast.List, ast.Dict, ast.Set, ast.ListComp, ast.DictComp, ast.SetComp)
+    ncls = 0
+    for cinfo in prog.classes.values():
+        ncls += 1
+        for st in cinfo.node.body:
+            tgt, val = None, None
+            if isinstance(st, ast.Assign) and len(st.targets) == 1 and isinstance(st.targets[0], ast.Name):
+                tgt, val = st.targets[0].id, st.value
+            elif isinstance(st, ast.AnnAssign) and isinstance(st.target, ast.Name) and st.value is not None:
+                tgt, val = st.target.id, st.value
+            if tgt is None or tgt.startswith("__"):
+                continue
+            cands = [val]
+            if isinstance(val, ast.Call):
+                cands = [k.value for k in val.keywords if k.arg == "default"] + ([] if val.keywords or not val.args else [])
+                if getattr(val.func, "id", "") in ("list", "dict", "set", "defaultdict", "OrderedDict", "deque"):
+                    cands = [val]
+            for c in cands:
+                if isinstance(c, MUT) or (isinstance(c, ast.Call) and getattr(c.func, "id", "") in ("list", "dict", "set", "defaultdict", "OrderedDict", "deque")):
+                    ctx.violate("R3", f"class {cinfo.name} keeps a mutable value in the class-level attribute `{tgt}`: it is one object shared by every instance (two open files / objects alive at once corrupt each other)", relpath=cinfo.module.relpath, function=cinfo.qualname, node=st, construct=f"class-level mutable {tgt}")
+    ctx.ok("R3", f"{ncls} classes: no class-level mutable attribute values", "iodata/")
+    ctx.floor("R3", ncls, 12, "package classes")
 
     # ------------------------------------------------------------------ R4 / R5
     ctx.rule("R4", "no ambient inputs reachable from the API", "output depends on clock, RNG, environment or object identity")
